@@ -545,7 +545,7 @@ def run_route(ctx, edges, leaves, route, replay, tag):
     state = dict(first_bad=None)
 
     def report(kind, text, label="file"):
-        if kind == "file-content":
+        if kind == "file-content" and not state["first_bad"]:      # (a container that is already wrong writes a wrong file)
             ctx.fail("c04-big-file-content", "CorrFunc.to_file of a CorrFunc with %d patches (route: %s): the datasets read back with h5py "
                      "are not the pair counts / sums of weights of the container: %s" % (K["dd"]["N"], route_text(route), text),
                      dict(replay, failed_op=label))
@@ -1132,10 +1132,12 @@ def run_measured_route(ctx, cf, K, route, replay, tag):
     K = kinds_apply(K, sp_copy)
 
     def report(kind, text, label="file"):
+        if state["first_bad"]:
+            return
         ctx.fail("c04-big-file-content", "CorrFunc.to_file of a measured CorrFunc with %d patches (route: %s): the datasets read back with "
                  "h5py are not the pair counts / sums of weights of the container: %s" % (K["dd"]["N"], route_text(route), text),
                  dict(replay, failed_op=label))
-        state["first_bad"] = state["first_bad"] or "to_file"
+        state["first_bad"] = "to_file"
 
     def check(label):
         if state["first_bad"]:
@@ -1225,7 +1227,7 @@ def gen_gen(rng, N=None, hi=400, roles=None, auto=None, nleaves=None, B=None):
 
 
 def run(ctx):
-    rng = ctx.rng
+    rng = _random.Random(ctx.seed * 1000003 + 404)       # a stream of its own: the other families keep theirs
     b_big = Batch(ctx, "Cases_C04_big", shard=1)
     b_nz = Batch(ctx, "Cases_C04_big_nz", shard=1)
     b_norm = Batch(ctx, "Cases_C04_big_norm", shard=2)
